@@ -125,6 +125,9 @@ Definition rk_hash (rk : root_key) : res hash :=
 Definition names_ok (flags : Z) (d f : pystr) : bool :=
   u32b flags && wfstr d && wfstr f && u32b (utf16_len d + 2) && u32b (utf16_len f + 2).
 
+(* the secret agreement parameters an envelope derived from a root key carries (_client.py: rk.secret_parameters or b"") *)
+Definition rk_sparams (r : root_key) : bytes := match rk_secret_params r with Some (x :: r') => x :: r' | _ => [] end.
+
 Section Cache.
 Context (c : Crypto) (h : hash) (rk : root_key) (rkid sd : bytes) (l0 : Z).
 
@@ -141,7 +144,10 @@ Record env_ok (e : envelope) : Prop := {
   eo_conf : conforming (kdfK c h rkid l0) root_top (env_of e);
   eo_names : names_ok (gke_flags e) (gke_domain e) (gke_forest e) = true;
   eo_salg : gke_secret_alg e = rk_secret_alg rk;
-  eo_priv : gke_priv_len e = rk_priv_len rk }.
+  eo_priv : gke_priv_len e = rk_priv_len rk;
+  (* the secret agreement parameters are the root key's (since the repair of D16 compute_kek checks a DH peer key
+     against them: a cached envelope with other parameters would make every public-key blob undecryptable) *)
+  eo_sparams : gke_secret_params e = rk_sparams rk }.
 
 (* the root key is loaded, and the entry of the triple (if any) is such an envelope *)
 Definition cache_ok (cache : ccache) : Prop :=
